@@ -7,7 +7,7 @@
 EXTENDS D42Substitute
 
 PlainScalars == { VNone, VBool(TRUE), VBool(FALSE), VInt(0), VInt(1), VInt(-5), VInt(INT_MAX),
-                  VFloat(0), VFloat(25), VFloat(100), VStr(<<>>), VStr(<<97, 98>>), VBytes(<<97>>), VBytes(<<97, 98>>), VBytes(<<>>),
+                  VFloat(0), VFloat(25), VFloat(100), VInf, VStr(<<>>), VStr(<<97, 98>>), VBytes(<<97>>), VBytes(<<97, 98>>), VBytes(<<>>),
                   VUuid(4, 0), VDatetime(0), VDate(0) }
 ScalarsSmall == { VNone, VBool(TRUE), VInt(1), VFloat(100), VStr(<<97, 98>>) }
 
